@@ -700,6 +700,10 @@ impl Scenario for C18 {
         // one sequence in 1500: the far end takes 55-125 ms of REAL time to answer one of the requests
         let slow_reply_at = if !long_poll && !long_clean && cx.chance(1, 1500) { Some(cx.draw(n)) } else { None };
         let slow_write = cx.chance(1, 1500);
+        let unpark_token = cx.chance(1, 4);
+        if unpark_token {
+            cx.probe("caller_thread_holds_an_unpark_token");
+        }
         // a tree that flushes the port meets a port whose flush can fail once (the unchanged tree never flushes)
         if cx.chance(1, 6) {
             let kind = *cx.pick(&[std::io::ErrorKind::Interrupted, std::io::ErrorKind::Other, std::io::ErrorKind::TimedOut, std::io::ErrorKind::BrokenPipe]);
@@ -759,6 +763,11 @@ impl Scenario for C18 {
                 cx.probe("reply_after_more_than_50ms_of_real_time");
                 injected_real = Duration::from_millis(55 + cx.draw(71));
                 shared.lock().real_delay_next_read = Some(injected_real);
+            }
+            if unpark_token {
+                // the calling thread holds a wake-up token (an application that wakes its sign worker with
+                // `unpark`): a pause is owed all the same
+                std::thread::current().unpark();
             }
             let start = (clock.now(), Instant::now());
             let slept0 = SLEPT_NS.with(|s| s.get());
